@@ -44,7 +44,12 @@ pub fn observe(p: &Value, t: &mut Track, full_rec: bool, feats: &mut BTreeMap<St
         t.n_trades[a] = trades.len();
     }
     // the environment's own order / trade getters must show the books' records
-    let agree = books.iter().enumerate().all(|(a, b)| p["env_orders"][a] == b["orders"] && p["env_trades"][a] == b["trades"]);
+    let agree = books.iter().enumerate().all(|(a, b)| {
+        let orders = b["orders"].as_array().unwrap();
+        p["env_orders"][a] == b["orders"] && p["env_trades"][a] == b["trades"]
+            && (p["env_order_by_id"].is_null() || p["env_order_by_id"][a] == b["orders"])
+            && (p["env_statuses"].is_null() || p["env_statuses"][a].as_array().map(|s| s.len() == orders.len() && s.iter().zip(orders).all(|(x, o)| *x == o[1])).unwrap_or(false))
+    });
     let rec_len: Vec<usize> = p["rec"].as_array().unwrap().iter().map(|r| r["trade_vols"].as_array().unwrap().len()).collect();
     let mut ev = json!({"now": p["now"], "pending": p["pending"], "nsteps": p["nsteps"], "l2": p["l2"], "books": eb,
         "rec_len": rec_len, "rec_last": p["rec"].as_array().unwrap().iter().map(rec_last).collect::<Vec<_>>(), "env_getters_agree": agree});
